@@ -29,6 +29,8 @@ func c01Opt() ragen.GenOpt {
 		Defs:         true,
 		DefsInPS:     true,
 		Includes:     true,
+		Excepts:      true,
+		Pairs:        true,
 		IncludePS:    true,
 		IncludeDefs:  true,
 		Cmdline:      true,
@@ -73,6 +75,13 @@ func checkC01(c C01Case) Outcome {
 	if err != nil {
 		out.HarnessError = "generated program does not resolve: " + err.Error()
 		return out
+	}
+	for _, l := range res.Body {
+		if l.K == ragen.KEntry && !ragen.ValidEntry(l.T) && l.T != "(?:)" {
+			// a suffix replacement turned an entry into text that is not an expression: outside "well-formed"
+			out.Labels = append(out.Labels, "outside-domain:rewritten-entry-not-parsable")
+			return out
+		}
 	}
 	ref, err := ragen.Eval(res, c.Cfg)
 	if err != nil {
